@@ -37,6 +37,7 @@ type Explorer struct {
 	FirstSchedule  map[string][]int
 	seenAtBound    int
 	stop           bool
+	kept           [][]int // a few complete schedules, kept for the determinism check
 }
 
 func (e *Explorer) cost(x *Exec, upto int) int {
@@ -90,6 +91,9 @@ func altCost(p Point, alt int) int {
 
 func (e *Explorer) runOne(prefix []int, trace bool) *Exec {
 	x := RunOne(prefix, Options{MaxSteps: e.MaxSteps, KeepTrace: trace}, e.Body)
+	if e.Execs < 2 || (e.Execs%997 == 0 && len(e.kept) < 6) {
+		e.kept = append(e.kept, append([]int{}, x.Choices...))
+	}
 	e.Execs++
 	e.PointsTotal += len(x.Points)
 	return x
@@ -220,4 +224,18 @@ func (e *Explorer) Replay(schedule []int) (x *Exec, deterministic bool) {
 	}
 	same := strings.Join(a.Observed, "|") == strings.Join(b.Observed, "|") && strings.Join(a.Trace, "|") == strings.Join(b.Trace, "|") && len(a.Fails) == len(b.Fails) && a.Diverged == "" && b.Diverged == ""
 	return a, same
+}
+
+// ValidateReplays re-runs a few of the explored schedules twice each and reports how many reproduced
+// exactly (same trace, same observations) and how many did not. A schedule that does not reproduce
+// means nondeterminism the scheduler does not own: nothing the exploration said can be trusted.
+func (e *Explorer) ValidateReplays() (ok, bad int) {
+	for _, sch := range e.kept {
+		if _, det := e.Replay(sch); det {
+			ok++
+		} else {
+			bad++
+		}
+	}
+	return
 }
